@@ -83,6 +83,17 @@ def known_match(run, what_kind, detail):
 LIVE_WRAPS = ["coap_ticks", "coap_socket_send", "coap_socket_recv"]
 
 
+def cap_by_bytes(items, cap, r):
+    """uniform subsample of deliveries so that the datagram bytes the reference has to process
+    stay below cap (item[0] = case line ending in the datagram)"""
+    w = [len(it[0].split()[-1]) // 2 + 64 for it in items]
+    total = sum(w)
+    if total <= cap:
+        return items
+    keep = cap / total
+    return [it for it in items if r.random() < keep]
+
+
 def strip_tm(d):
     """drop type and message id of a dump (chosen by the library for responses)"""
     return re.sub(r"t=\d+ (c=\d+) m=\d+", r"\1", d)
@@ -212,7 +223,8 @@ def live_phase(run, model, live_cases, quick):
                     st["handler_runs_unprotected_field"] += 1
     # what the handler saw for variants of unprotected fields = what the reference hands out
     if follow:
-        fm_ = vlib.run_lines_robust(model, [f[0] for f in follow], timeout=900)[0]
+        follow = cap_by_bytes(follow, 400_000 if quick else 3_000_000, tie.rng_for(run, "live"))
+        fm_ = vlib.run_lines_robust(model, [f[0] for f in follow], timeout=3000)[0]
         for (un, seen, tag, ln), mo in zip(follow, fm_):
             st["reference_checked"] += 1
             if mo != seen:
@@ -470,7 +482,10 @@ def main(run):
             followups.append((" ".join(["oscun"] + ctxt + mode + [var.hex() if var else "-"]), info, tag))
     run.cov["phase_seconds"]["flips_impl"] = round(time.time() - t_phase, 1)
     t_phase = time.time()
-    um, uc, _ = tie.run_both(model, drv, [f[0] for f in followups])
+    # the reference costs about 20 us per ciphertext byte and delivery: bound the total
+    followups = cap_by_bytes(followups, 1_500_000 if quick else 9_000_000, r)
+    stats["reference_bytes"] = sum(len(f[0].split()[-1]) // 2 for f in followups)
+    um, uc, _ = tie.run_both(model, drv, [f[0] for f in followups], timeout=3000)
     run.cov["phase_seconds"]["flips_reference"] = round(time.time() - t_phase, 1)
     ndis = 0
     for k, (ln, info, tag) in enumerate(followups):
